@@ -159,6 +159,9 @@ def case_randarg(ctx, lines, expect, a, which, axis, seed):
     a = np.asarray(a, dtype=float)
     rs = SpyRS(seed)
     kw = {} if axis is None else {"axis": axis}
+    if axis is None and (seed // 5) % 2 == 1:
+        kw = {"axis": None}          # the keyword spelled out: same call as leaving it out
+        ctx.count("axis_None_passed_explicitly")
     layout = (LAYOUTS_1D if a.ndim == 1 else LAYOUTS_2D)[seed % 5]
     try:
         with np.errstate(all="ignore"):
@@ -168,6 +171,13 @@ def case_randarg(ctx, lines, expect, a, which, axis, seed):
         return
     noise = rs.log[0][1]
     name = "randarg" + which
+    want_len = 1 if a.ndim == 1 else (2 if axis is None else a.shape[1 - axis])
+    if np.ndim(res) != 1 or len(res) != want_len:
+        # not a position of the array at all (a mutated implementation may return anything)
+        ctx.violate(f"C18/rand_arg{which}/result-is-not-a-position",
+                    f"rand_arg{which}({'axis=' + str(kw['axis']) if kw else 'no axis'}) on an array of shape {a.shape} returned {np.asarray(res).tolist()!r}, "
+                    f"expected an index array of length {want_len}", dict(fn=f"rand_arg{which}", a=a, axis=axis, seed=seed))
+        return
     if a.ndim == 1:
         line = f"{name} {fl(a)} {fl(noise)}"
         impl = str(int(res[0]))
